@@ -43,6 +43,15 @@ PROPS = {
     "C20": dict(PRIMMON, level="exploration", variants={"quick": ["checked", "wrapping"], "thorough": ["checked", "wrapping", "miri"]},
                 shards={"quick": 4, "thorough": 8},
                 assumptions=["R-der (X.690 8.1.2, 8.1.3) transcribed from memory for identifier and length octets; INTEGER contents judged by round trip only"]),
+    "C07": dict(FRONTMON, level="exploration", variants={"quick": ["checked"], "thorough": ["checked"]}, shards={"quick": 16, "thorough": 16},
+                assumptions=["the canonical projection P and my own resolver are the specification of 'what was declared'", "only the canonical layout (layout variation is C13)"]),
+    "C13": dict(FRONTMON, level="exploration", variants={"quick": ["checked"], "thorough": ["checked"]}, shards={"quick": 16, "thorough": 16},
+                assumptions=["R-lexer: tokens and (line, column) follow from the lexical items and the chosen separators (X.680 12)", "string literals avoid '--' and '/*' (the tokenizer has no string state)"]),
+    "C14": dict(FRONTMON, level="fault_enumeration", variants={"quick": ["checked"], "thorough": ["checked"]}, shards={"quick": 16, "thorough": 16},
+                assumptions=["'never hangs' is restated as: every input finishes within the batch watchdog (isolate-and-repeat before reporting a hang)",
+                             "the sanctioned panic is recognised by message and by the input really having an unterminated block comment"]),
+    "C15": dict(FRONTMON, level="exploration", variants={"quick": ["checked"], "thorough": ["checked"]}, shards={"quick": 16, "thorough": 16},
+                assumptions=["R-inttype: unsigned iff lb >= 0, narrowest of the four widths, MIN/MAX/extensible => 64 bit (MIN => signed)"]),
 }
 
 
@@ -159,11 +168,11 @@ def run_workers(binary, prop, tier, seed, variant, nshards, extra=None, timeout=
     return reports, problems
 
 
-def engine_primmon(prop, cfg, tier, seed, merged):
+def engine_primmon(prop, cfg, tier, seed, merged, package="primmon"):
     problems = []
     for variant in cfg["variants"][tier]:
         if variant == "miri":
-            reps, probs = run_workers("primmon", prop, tier, seed, "miri", min(NCPU, 8), timeout=3000, miri=True)
+            reps, probs = run_workers(package, prop, tier, seed, "miri", min(NCPU, 8), timeout=3000, miri=True)
             miri_reports = [p for p in probs if p.startswith("MIRI-REPORT")]
             for p in miri_reports:
                 merged["violations"].setdefault("miri:undefined-behaviour", {"count": 0, "witnesses": [], "class": None, "variants": set()})
@@ -174,9 +183,9 @@ def engine_primmon(prop, cfg, tier, seed, merged):
             for r in reps:
                 merge_into(merged, r, "miri")
             continue
-        ok, binary, out = cargo_build("primmon", variant)
+        ok, binary, out = cargo_build(package, variant)
         if not ok:
-            problems.append("build of primmon (%s) failed: %s" % (variant, out[-600:].replace("\n", " | ")))
+            problems.append("build of %s (%s) failed: %s" % (package, variant, out[-600:].replace("\n", " | ")))
             continue
         reps, probs = run_workers(binary, prop, tier, seed, variant, cfg["shards"][tier])
         problems += probs
@@ -185,7 +194,11 @@ def engine_primmon(prop, cfg, tier, seed, merged):
     return problems
 
 
-ENGINES = {"primmon": engine_primmon}
+def engine_frontmon(prop, cfg, tier, seed, merged):
+    return engine_primmon(prop, cfg, tier, seed, merged, package="frontmon")
+
+
+ENGINES = {"primmon": engine_primmon, "frontmon": engine_frontmon}
 
 # ------------------------------------------------------------------------------------------------
 # verdict
@@ -243,6 +256,10 @@ def main():
     # replay files + output lines
     lines = []
     replay_dir = os.path.join(VERIF, "replay", prop)
+    if os.path.isdir(replay_dir):
+        for fn in os.listdir(replay_dir):
+            if fn.endswith(".json"):
+                os.remove(os.path.join(replay_dir, fn))
     if violations:
         os.makedirs(replay_dir, exist_ok=True)
     for n, (sig, f) in enumerate(violations):
